@@ -75,6 +75,8 @@ def _variants(k, base, aliases, variants):
         vs += [("<!--\tpyml disable-next-line %s -->" % rid.upper(), "next", 0, [rid], False),
                ("<!-- pyml disable-num-lines 1 %s-->" % al.upper(), "num", 1, [rid], False),
                ("<!-- pyml disable-num-lines 3 %s-->" % rid, "num", 3, [rid], False),
+               ("<!--- pyml disable-num-lines 2 %s-->" % rid, "num", 2, [rid], False),          # alternate prefix x range command
+               ("<!--- pyml disable-num-lines 3 no-such-rule-->", "bad", 0, [], True),
                ("<!-- pyml disable-next-line %s, %s-->" % (rid, "md047" if rid != "md047" else "md013"), "next", 0, [rid, "md047" if rid != "md047" else "md013"], False),
                ("<!-- pyml disable-next-line %s-->" % other, "next", 0, [other], False)]
     bad = ["<!-- pyml disable-num-lines 0 %s-->" % rid, "<!-- pyml disable-num-lines -1 %s-->" % rid, "<!-- pyml disable-num-lines x %s-->" % rid,
